@@ -171,13 +171,36 @@ def contradictory(p):
     the framer state it reads is infeasible (e.g. isFrameReady() evaluated twice)"""
     version = 0
     seen = {}
+    have, exact = set(), False       # keys definitely present in self._header / the key set is known exactly
     for ev in p.ev:
         if ev.kind in ('assign', 'aug'):
             t = ev.node.targets[0] if ev.kind == 'assign' and hasattr(ev.node, 'targets') else getattr(ev.node, 'target', None)
             txt = U(t) if t is not None else ''
             if txt.startswith('self._buffer') or txt.startswith('self._header'):
                 version += 1
+            if ev.kind == 'assign':
+                tg = getattr(ev, '_subt', None)
+                tg = tg if isinstance(tg, ast.AST) else ev.a
+                for el in (tg.elts if isinstance(tg, (ast.Tuple, ast.List)) else [tg]):
+                    if isinstance(el, ast.Subscript) and U(el.value) == 'self._header' and isinstance(el.slice, ast.Constant):
+                        have.add(el.slice.value)
+                    elif isinstance(el, ast.Attribute) and U(el) == 'self._header':
+                        v = getattr(ev, '_sub', None)
+                        if isinstance(v, ast.Dict) and all(isinstance(x, ast.Constant) for x in v.keys):
+                            have, exact = {x.value for x in v.keys}, True
+                        else:
+                            have, exact = set(), False
+        elif ev.kind in ('call', 'del') and 'self._header' in U(ev.node) and not U(ev.node).startswith(('_logger', 'logging')):
+            f_ = getattr(ev.node, 'func', None)
+            if ev.kind == 'del' or (isinstance(f_, ast.Attribute) and U(f_.value) == 'self._header' and f_.attr in ('pop', 'clear', 'update', 'popitem', 'setdefault')):
+                have, exact = set(), False
         elif ev.kind == 'cond':
+            t_ = ev._sub
+            if isinstance(t_, ast.Compare) and len(t_.ops) == 1 and isinstance(t_.ops[0], (ast.In, ast.NotIn)) and isinstance(t_.left, ast.Constant) \
+                    and U(t_.comparators[0]) == 'self._header':
+                present = (ev.a is True) == isinstance(t_.ops[0], ast.In)
+                if (t_.left.value in have and not present) or (exact and t_.left.value not in have and present):
+                    return True
             txt = U(ev._sub)
             if 'self.' not in txt:
                 continue
